@@ -11,7 +11,7 @@
    getitem_all_ints    an all-integer request is exactly one element request
 *)
 
-Require Import List ZArith Arith Bool Lia.
+Require Import List ZArith Arith Bool Lia Sorted.
 Import ListNotations.
 Require Import PV.PySeries.Sentinel PV.PySeries.Cache PV.PySeries.Index PV.PySeries.GetItem.
 
@@ -372,3 +372,118 @@ Section Algo.
   Qed.
 
 End Algo.
+
+(* ---------------------------------------------------------------------- *)
+(* 5. The evaluated set: which element requests a request makes. *)
+
+Lemma pos_ltb_irrefl a : pos_ltb a a = false.
+Proof. induction a; cbn; auto. now rewrite Nat.eqb_refl. Qed.
+
+Lemma pos_ltb_trans a : forall b c, pos_ltb a b = true -> pos_ltb b c = true -> pos_ltb a c = true.
+Proof.
+  induction a as [|x a IH]; intros [|y b] [|z c]; cbn; auto; try discriminate.
+  destruct (Nat.eqb x y) eqn:E1; destruct (Nat.eqb y z) eqn:E2.
+  - apply Nat.eqb_eq in E1, E2. subst. rewrite Nat.eqb_refl. apply IH.
+  - apply Nat.eqb_eq in E1. subst. rewrite E2. auto.
+  - apply Nat.eqb_eq in E2. subst. rewrite E1. auto.
+  - intros H1 H2. apply Nat.ltb_lt in H1, H2.
+    assert (Nat.eqb x z = false) as -> by (apply Nat.eqb_neq; lia). apply Nat.ltb_lt. lia.
+Qed.
+
+Lemma pos_total a : forall b, pos_eqb a b = false -> pos_ltb a b = false -> pos_ltb b a = true.
+Proof.
+  induction a as [|x a IH]; intros [|y b]; cbn; auto; try discriminate.
+  destruct (Nat.eqb x y) eqn:E.
+  - apply Nat.eqb_eq in E. subst. rewrite Nat.eqb_refl. cbn. apply IH.
+  - rewrite Nat.eqb_sym, E. cbn. intros _ H. apply Nat.ltb_ge in H. apply Nat.eqb_neq in E.
+    apply Nat.ltb_lt. lia.
+Qed.
+
+Definition pos_lt (a b : list nat) : Prop := pos_ltb a b = true.
+
+Lemma insert_pos_sorted p l :
+  Sorted.StronglySorted pos_lt l -> Sorted.StronglySorted pos_lt (insert_pos p l).
+Proof.
+  induction 1 as [|q r Hr IH Hq]; cbn.
+  - constructor. constructor. constructor.
+  - destruct (pos_eqb p q) eqn:E; [now constructor|].
+    destruct (pos_ltb p q) eqn:L.
+    + constructor. now constructor. constructor; auto.
+      eapply Forall_impl; [|exact Hq]. intros c Hc. eapply pos_ltb_trans; eauto.
+    + constructor; auto. apply Forall_forall. intros c Hc. apply in_insert_pos in Hc.
+      destruct Hc as [->|Hc].
+      * apply pos_total; auto.
+      * rewrite Forall_forall in Hq. now apply Hq.
+Qed.
+
+Lemma sort_uniq_sorted l : Sorted.StronglySorted pos_lt (sort_uniq l).
+Proof.
+  unfold sort_uniq. induction l; cbn. constructor. now apply insert_pos_sorted.
+Qed.
+
+Lemma sort_uniq_NoDup l : NoDup (sort_uniq l).
+Proof.
+  pose proof (sort_uniq_sorted l) as S. induction S as [|q r Hr IH Hq]; constructor; auto.
+  intros H. rewrite Forall_forall in Hq. specialize (Hq q H). unfold pos_lt in Hq.
+  now rewrite pos_ltb_irrefl in Hq.
+Qed.
+
+Section Evaluated.
+  Variable X : Type.
+  Variable xdefault : X.
+
+  (* A request that passes the checks makes element requests (calls of the element-level
+     callback, i.e. of the cache) for EXACTLY the positions NumPy selects - not for the
+     bounding box of the per-axis selections -, each once, in sorted order, stopping at the
+     first exception; `poss` may be computed on a dense array of any sufficient extent. *)
+  Theorem getitem_evaluated_set (g : bcallback X) hd s item w ext ext' shp poss :
+    existsb order_bad (skipn (length (fshape hd)) item) = false ->
+    length item = length (fshape hd) + bninf hd ->
+    extents (skipn (length (fshape hd)) item) = IOk ext ->
+    Forall2 le ext ext' ->
+    np_index (fshape hd ++ ext') item = IOk (shp, poss) ->
+    bs_getitem_full xdefault g hd s item w =
+    match eval_positions g s (sort_uniq poss) w with
+    | (Ok evald, w') =>
+        (Ok (if np_scalar (fshape hd ++ ext') item
+             then RScalar (hd_default xdefault (map (value_at xdefault evald) poss))
+             else RArray shp (map (value_at xdefault evald) poss)), w')
+    | (Raise x, w') => (Raise x, w')
+    | (OutOfFuel, w') => (OutOfFuel, w')
+    end.
+  Proof.
+    intros B A E Le N. unfold bs_getitem_full. rewrite B, A, Nat.eqb_refl, E. cbn [negb].
+    destruct (@np_index_extent (fshape hd) item ext ext') as [E1 E2]; auto. lia.
+    rewrite <- E1, <- E2, N. reflexivity.
+  Qed.
+
+  (* the callback is applied by eval_positions to a prefix of the list, in order; to all of it
+     iff no exception occurs *)
+  Fixpoint requested (g : bcallback X) (s : sid) (ps : list index) (w : bworld X) : list index :=
+    match ps with
+    | [] => []
+    | p :: r =>
+        match g s p w with
+        | (Ok _, w1) => p :: requested g s r w1
+        | _ => [p]
+        end
+    end.
+
+  Lemma requested_prefix g s ps : forall w, exists rest, ps = requested g s ps w ++ rest.
+  Proof.
+    induction ps as [|p r IH]; intros w; cbn. exists []. reflexivity.
+    destruct (g s p w) as [[v|x|] w1].
+    - destruct (IH w1) as (rest & E). exists rest. cbn. now f_equal.
+    - exists r. reflexivity.
+    - exists r. reflexivity.
+  Qed.
+
+  Lemma requested_all g s ps : forall w l w',
+    eval_positions g s ps w = (Ok l, w') -> requested g s ps w = ps.
+  Proof.
+    induction ps as [|p r IH]; cbn; intros w l w' E; auto.
+    destruct (g s p w) as [[v|x|] w1]; try discriminate.
+    destruct (eval_positions g s r w1) as [[l'|x|] w2] eqn:E'; try discriminate.
+    f_equal. eapply IH; eauto.
+  Qed.
+End Evaluated.
